@@ -285,6 +285,10 @@ class HexRunner:
         except WriteFailed:
             self.res.emit("hx.bend 0", "exn WriteFailed")
             outcome = "commit-failed"
+        except Exception as e:  # noqa  (nothing else may leave a block on a complete database)
+            self.res.emit("hx.bend 0", fmt_exc(e))
+            self.res.fail("batch-raised", "squash_changes block raised %r" % (e,))
+            outcome = "raised"
         else:
             self.res.emit("hx.bend 0", "ok")
             self.model.clear()
